@@ -23,8 +23,14 @@ def run_history(ctx, I, n_units, init, ops):
     P = I["provenance"]
     import random as _r
     keys, _scheme = rand_keys(_r.Random(hash(str(init)) & 0xffff), n_units)
-    units = UView(P.Units(units=list(keys), candidates=2), keys)
-    prov = P.Provenance([gen.build_expr(P, units, e) for e in init])
+    raw_units = P.Units(units=list(keys), candidates=2)
+    units = UView(raw_units, keys)
+    from_default = all("eq" in e and e["eq"] == [i, 1] for i, e in enumerate(init)) and len(init) == n_units
+    flags = []
+    if from_default:
+        prov = P.Provenance(units=raw_units)          # the default one-row-per-unit provenance OBJECT (is_simple), then edited in place
+    else:
+        prov = P.Provenance([gen.build_expr(P, units, e) for e in init])
     ref = list(init)
     asg = spec.assignments(n_units)
     mops = []
@@ -94,6 +100,7 @@ def run_history(ctx, I, n_units, init, ops):
         elif kind == "reverse":
             mops.append({"op": "select", "idx": list(range(op["_len"] - 1, -1, -1))})
         mops.append({"op": "table"})
+        mops.append({"op": "simple"})
         # compare with the reference now
         if ref_err != impl_err:
             return dict(step=k, op=op, what="exception behaviour differs from list", impl=impl_err, spec=ref_err), mops
@@ -108,16 +115,32 @@ def run_history(ctx, I, n_units, init, ops):
             return dict(step=k, op=op, what="container differs from the list after this op",
                         impl=dict(len=ln, query=tab, readback=back), spec=dict(len=len(ref), table=stab)), mops
         trace.append(stab)
-    return dict(trace=trace), mops
+        # the fast-path flag may only be set while the rows are exactly one `x_u == 1` per unit, in unit order
+        flag = bool(prov.is_simple)
+        flags.append(flag)
+        if flag and (ln != n_units or stab != [[a[u] == 1 for u in range(n_units)] for a in asg]):
+            return dict(step=k, op=op, what="is_simple is set on a container that is not the one-row-per-unit default",
+                        impl=dict(is_simple=True, len=ln, query=tab), spec=dict(len=len(ref), table=stab)), mops
+    return dict(trace=trace, flags=flags, from_default=from_default), mops
+
+
+def rand_formula(rng, n_units, maxd, maxw):
+    e = gen.rand_expr_flat(rng, n_units, maxd, maxw, 2)
+    if "disj" in e and rng.random() < 0.5:
+        # widths in a random monotone order: the widest conjunct / the longest disjunction is then often NOT in the first slot of any row
+        e = {"disj": sorted(e["disj"], key=len, reverse=(rng.random() < 0.5))}
+    return e
 
 
 def gen_history(rng, n_units, max_ops):
-    init = [gen.rand_expr_flat(rng, n_units, 2, 2, 2) for _ in range(rng.randint(1, 3))]
+    init = [rand_formula(rng, n_units, 2, 2) for _ in range(rng.randint(1, 3))]
+    if rng.random() < 0.3:
+        init = [{"eq": [i, 1]} for i in range(n_units)]       # start from the default provenance
     ln = len(init)
     ops = []
     for _ in range(rng.randint(3, max_ops)):
         r = rng.random()
-        e = gen.rand_expr_flat(rng, n_units, 3, 3, 2)
+        e = rand_formula(rng, n_units, 3, 3)
         if r < 0.22 and ln > 0:
             ops.append({"op": "set", "i": rng.randrange(-ln, ln), "e": e})
         elif r < 0.40:
@@ -127,7 +150,7 @@ def gen_history(rng, n_units, max_ops):
             ops.append({"op": "append", "e": e})
             ln += 1
         elif r < 0.62:
-            es = [gen.rand_expr_flat(rng, n_units, 3, 3, 2) for _ in range(rng.randint(1, 2))]
+            es = [rand_formula(rng, n_units, 3, 3) for _ in range(rng.randint(1, 2))]
             ops.append({"op": "extend", "es": es})
             ln += len(es)
         elif r < 0.74 and ln > 1:
@@ -204,13 +227,16 @@ def shrink(ctx, I, n_units, init, ops):
 def run(ctx):
     I = load_impl(ctx)
     rng = ctx.rng
-    n_hist = 60 if ctx.tier == "quick" else 600
+    n_hist = 150 if ctx.tier == "quick" else 1500
     max_ops = 12 if ctx.tier == "quick" else 40
     corpus = [
         (3, [{"conj": [[0, 1], [1, 1]]}], [{"op": "append", "e": {"eq": [2, 1]}}]),                       # F7: narrower than stored
         (3, [{"eq": [0, 1]}, {"eq": [1, 1]}], [{"op": "insert", "i": -1, "e": {"eq": [2, 1]}}]),           # F15: negative insert
         (3, [{"eq": [0, 1]}, {"eq": [1, 1]}], [{"op": "insert", "i": 5, "e": {"eq": [2, 1]}}]),            # F15: past the end
         (3, [{"eq": [0, 1]}], [{"op": "set", "i": 0, "e": {"disj": [[[1, 1]], [[2, 1], [0, 0]]]}}, {"op": "append", "e": {"eq": [1, 0]}}]),
+        # a deletion must not disturb the surviving rows, whatever slot holds their widest conjunct / however many disjuncts they have
+        (3, [{"disj": [[[0, 1]], [[1, 1], [2, 1]]]}, {"eq": [0, 1]}, {"eq": [1, 1]}], [{"op": "del", "i": 1}]),
+        (3, [{"eq": [2, 1]}, {"disj": [[[0, 1]], [[1, 1]], [[2, 0]]]}, {"conj": [[0, 1], [1, 1], [2, 1]]}], [{"op": "del", "i": -1}, {"op": "pop"}]),
     ]
     hist = [(n, i, o) for n, i, o in corpus] + [None] * n_hist
     for h in hist:
@@ -232,10 +258,15 @@ def run(ctx):
             res2, _ = run_history(ctx, I, n_units, init, small)
             ctx.mismatch(res2.get("what", res["what"]), dict(nUnits=n_units, init=init, ops=small), impl=res2.get("impl"), spec=res2.get("spec"))
             continue
-        model = ctx.model({"op": "history", "prov": {"nUnits": n_units, "exprs": init}, "ops": mops})
+        model = ctx.model({"op": "history", "prov": ({"nUnits": n_units, "default": True} if res["from_default"] else {"nUnits": n_units, "exprs": init}),
+                           "ops": mops})
         if model is not None:
             outs = [o for o in model["ok"] if isinstance(o, list)]
             errs = [o for o in model["ok"] if isinstance(o, dict) and "err" in o]
+            mflags = [o for o in model["ok"] if isinstance(o, bool)]
+            if not errs and outs == res["trace"] and mflags != res["flags"]:
+                ctx.mismatch("model Ds.Prov.Obj fast-path flag disagrees with Provenance.is_simple (the implementation's flag is sound for its rows)", case,
+                             impl=res["flags"], model=mflags, failing_input=False, broken="corr:Ds.Prov.Obj.step / theorem C01_obj_history")
             if errs or outs != res["trace"]:
                 ctx.mismatch("model Ds.Prov container disagrees with implementation (implementation agrees with the list)", case,
                              impl=res["trace"][-1] if res["trace"] else None, model=(errs or outs[-1:]), failing_input=False,
